@@ -10,11 +10,15 @@ import (
 	"flag"
 	"fmt"
 	"math/rand"
+	"net"
 	"net/url"
 	"os"
+	"strings"
 	"sync"
 	"sync/atomic"
+	"syscall"
 	"time"
+	"unsafe"
 )
 
 func init() { subcmds["c15-storm"] = c15Storm }
@@ -104,6 +108,12 @@ func c15Storm(args []string) int {
 		w.postStep(report, "storm", "concurrent-storm", fmt.Sprintf("after %d HTTP reads and %d producer commands, concurrently", atomic.LoadInt64(&reqs), atomic.LoadInt64(&cmds)),
 			"", c15ByIntact, "", "")
 	}
+	if !gaveUp && w.d.alive() {
+		gaveUp = c15StalledReaders(w, report)
+	}
+	if !gaveUp && w.d.alive() {
+		c15DescriptorFlood(w, report)
+	}
 	report.mu.Lock()
 	report.Evaluations += int(atomic.LoadInt64(&reqs) + atomic.LoadInt64(&cmds))
 	report.mu.Unlock()
@@ -112,4 +122,91 @@ func c15Storm(args []string) int {
 		return 2
 	}
 	return 0
+}
+
+// c15StalledReaders: a large registry, and HTTP clients that ask for it (/debug, /nodes, /topics, /lookup) and then do not
+// read the answer.  Everybody else is served as before: producers are admitted, the bystander is intact, queries answered.
+func c15StalledReaders(w *c15World, report *c15Report) bool {
+	big, err := c15Dial(w.d.tcp)
+	if err != nil {
+		return false
+	}
+	defer big.close()
+	long := strings.Repeat("x", 180)
+	big.send(append([]byte("  V1"), c15IdentifyBytes(c15PeerBody("big-"+long, 4250, 4251, "1.3.0-"+long))...))
+	if _, st := big.readFrame(c15Deadline); st != "frame" {
+		return false
+	}
+	n := 0
+	for i := 0; i < 6000; i++ {
+		big.send([]byte(fmt.Sprintf("REGISTER big_%s_%d c_%s\n", long[:40], i, long[:40])))
+		if _, st := big.readFrame(c15Deadline); st != "frame" {
+			break
+		}
+		n++
+	}
+	var stalled []net.Conn
+	for _, route := range []string{"/debug", "/nodes", "/topics", "/debug", "/lookup?topic=" + url.QueryEscape(c15ByTopic), "/debug"} {
+		c, err := net.DialTimeout("tcp", w.d.http, 5*time.Second)
+		if err != nil {
+			continue
+		}
+		if tc, ok := c.(*net.TCPConn); ok {
+			tc.SetReadBuffer(4096)
+		}
+		fmt.Fprintf(c, "GET %s HTTP/1.1\r\nHost: c15\r\n\r\n", route)
+		stalled = append(stalled, c) // never read
+	}
+	time.Sleep(700 * time.Millisecond)
+	// a producer arrives now
+	late := ""
+	if c, err := c15Dial(w.d.tcp); err == nil {
+		c.send(append([]byte("  V1"), c15IdentifyBytes(c15PeerBody("late-producer", 4350, 4351, "late"))...))
+		if _, st := c.readFrame(c15Deadline); st != "frame" {
+			late = "a producer that connected meanwhile got no answer to its IDENTIFY within " + c15Deadline.String() + " (" + st + ")"
+		}
+		c.close()
+	}
+	input := fmt.Sprintf("%d registrations by one producer; %d HTTP clients asked for /debug, /nodes, /topics, /lookup and do not read the answers", n, len(stalled))
+	if late != "" {
+		report.add(c15Finding{Level: "violation", Kind: "not-serving", Key: "not-serving:stalled-readers", What: "nsqlookupd stopped serving others while HTTP clients were not reading their answers: " + late,
+			Row: "storm", Input: input, Stderr: w.d.tail(12)})
+	}
+	gave := w.postStep(report, "storm", "stalled-readers", input, "", c15ByIntact, "", "")
+	for _, c := range stalled {
+		c.Close()
+	}
+	return gave || late != ""
+}
+
+// c15DescriptorFlood: somebody opens connections to the TCP port until the daemon has no file descriptor left (its limit is
+// lowered for the occasion), holds them for a moment and goes away.  The daemon is still there, the bystander intact,
+// a new client served.
+func c15DescriptorFlood(w *c15World, report *c15Report) {
+	type rlimit struct{ Cur, Max uint64 }
+	var old rlimit
+	const rlimitNofile = 7
+	if _, _, e := syscall.RawSyscall6(syscall.SYS_PRLIMIT64, uintptr(w.d.pid), rlimitNofile, 0, uintptr(unsafe.Pointer(&old)), 0, 0); e != 0 {
+		return
+	}
+	low := rlimit{Cur: 48, Max: old.Max}
+	if _, _, e := syscall.RawSyscall6(syscall.SYS_PRLIMIT64, uintptr(w.d.pid), rlimitNofile, uintptr(unsafe.Pointer(&low)), 0, 0, 0); e != 0 {
+		return
+	}
+	var flood []net.Conn
+	for i := 0; i < 120; i++ {
+		if c, err := net.DialTimeout("tcp", w.d.tcp, 2*time.Second); err == nil {
+			c.Write([]byte("  V1"))
+			flood = append(flood, c)
+		}
+	}
+	time.Sleep(800 * time.Millisecond)
+	for _, c := range flood {
+		c.Close()
+	}
+	time.Sleep(300 * time.Millisecond)
+	syscall.RawSyscall6(syscall.SYS_PRLIMIT64, uintptr(w.d.pid), rlimitNofile, uintptr(unsafe.Pointer(&old)), 0, 0, 0)
+	time.Sleep(300 * time.Millisecond)
+	w.postStep(report, "storm", "descriptor-flood", fmt.Sprintf("%d idle connections to the TCP port with the daemon's descriptor limit at 48, held for 0.8 s, then closed", len(flood)),
+		"", c15ByIntact, "", "")
 }
